@@ -85,7 +85,7 @@ def r02_2(ctx, layers):
         f = F.method(LY.ROUTER, "remove")
         r.analysed(f)
         check_fn(r, f, "Router", lambda c: c.local and c.adt == layers[0].adt)
-    ctx.run_rule("R02.2", "removal results are propagated to the caller", body, floor=20)
+    ctx.run_rule("R02.2", "removal results are propagated to the caller", body, floor=16)
 
 
 def r02_3(ctx, layers):
